@@ -32,6 +32,10 @@ CLAIMED = {
    note='Reals not floats; log/exp uninterpreted with ground axiom instances; torch.distributions validation off (domain constraints instead); n and grid size bounded as stated in the evidence; soft (temperature) skygrid outside the claim.',
    technique='symbolic execution of torchtree tensor code (SymTensor) + SMT (z3/cvc5, QF_UFNRA) with solver-certified path-region coverage'),
 }
+CLAIMED['C11'] = dict(level=MC, ref='DESIGN.md §4 C11',
+   text='Two composite model graphs built from JSON (tree likelihood with ratio-parameterised time tree, strict clock, HKY, Weibull+invariant site model, constant coalescent on an Exp-transformed parameter, a view parameter, a prior and a variational Distribution, joint; and a GMRF / skygrid / MG94 graph on a concatenated + transformed field) are driven through enumerated histories of update operations (direct assignment, assignment through view / concatenation / transformed parameter, in-place write + change notification, rsample of a Distribution, operator step + reject). Every assignment writes fresh symbols; after each operation every model value and derived tensor must be the same expression as that of a freshly built copy holding the same symbols. Identical hash-consed expressions close a goal syntactically; any difference is a solver query whose model is replayed on the real models (real HKY) before being reported; a solver vacuity guard per step shows the update can change an observed value. An exception during any update is a violation.',
+   note='Histories of length <= 2 quick / 3 thorough (sampled triples); substitution_model.p_t is an uninterpreted function of (branch argument, kappa, frequencies); optimiser steps are modelled as in-place write + fire_parameter_changed (Optimizer._run itself is not executed); 3 taxa.',
+   technique=TECH_A + '; enumerated update histories with fresh symbols per assignment, relational comparison with a fresh rebuild')
 CLAIMED['C16'] = dict(level=MC, ref='DESIGN.md §4 C16',
    text='The real LeapfrogIntegrator.__call__, Hamiltonian.kinetic_energy and HMCOperator._step/step/reject are executed with the target an UNINTERPRETED differentiable function: model() returns U(q), backward() is answered by symbolic reverse differentiation so the gradient and Hessian are uninterpreted function symbols. For symbolic positions, momenta, step size and SPD inverse mass matrix (diagonal and dense) the solver proves: flip-and-return gives (q,-p); det d(q\',p\')/d(q,p) = 1; the energy error and its first derivative in the step size vanish at 0 (so the error is O(eps^2)); the operator returns K(p_start)-K(p_end), proposes the trajectory end point, retries after a numerical failure and reject() restores the identical state. Bounded in dimension and number of steps (the loop body is the same for every step).',
    note='Reals not floats ("up to round-off" is outside the claim); dimension <= 2, steps <= 2 quick / 3 thorough, one or two parameters per operator; Hessian symmetry of the target assumed (ground instances); momentum draw is an arbitrary symbolic vector; isnan guards false on real inputs; replays use torch.autograd on a quartic target.',
